@@ -27,7 +27,14 @@ RULES["C03"] = (
     "origin, faces permuted and cyclically rotated, density in [1e-3,1e3], centre-of-mass override, rigid frame. "
     "Oracle: exact rational signed-tetrahedra integrals (V=sum det/6, int x_i=sum det S_i/24, "
     "int x_i x_j=sum det(sum p_i p_j+S_i S_j)/120). Non-trivial: V != 0, all centre-of-mass coordinates non-zero and "
-    "all three products of inertia about the centre of mass non-zero."
+    "all three products of inertia about the centre of mass non-zero. (c) warm objects: one mesh object read "
+    "(volume, area, normals, cross products ...) and then moved by 1-3 of apply_transform (all matrix classes incl. "
+    "uniform scale, mirror, shear, integer similarity; matrix written as float64/float32/int/list/...), apply_scale, "
+    "apply_translation; after every step all quantities are compared with the exact integrals of the vertices and "
+    "faces the object holds now. (d) representations: every array / scalar argument (triangles, crosses, center_mass, "
+    "density, vertices, faces, frame, tensor, rotation) written as float64 / float32 / float16 / int64 / int32 array, "
+    "nested (int) list, read-only, Fortran-ordered or strided array whenever that holds exactly the same numbers "
+    "(values pre-rounded to float32/float16 in 2/3 of the cases); oracle = exact integrals of those numbers at float64 accuracy."
 )
 ASSUMPTIONS["C03"] = [
     "integer regime (integer coordinates, 240 m^5 n_faces < 2^53): every intermediate of the library's straight-line "
@@ -43,6 +50,9 @@ ASSUMPTIONS["C03"] = [
     "moment_inertia_frame(T) is R^T I_t R (tensor about the frame origin t expressed in the frame axes), "
     "transform_inertia(R, I) without parallel axis is R I R^T (tensor of the body moved by R, as cylinder_inertia uses it)",
     "meshes are built with process=False so that the surface handed in is the surface integrated",
+    "triangles.cross is treated as a primitive on arrays: only float64 / int64 layouts are handed to it directly "
+    "(no promise that it converts lists or widens float32)",
+    "after a transform the carried-along centre-of-mass override is taken as reported (whether it moved with the mesh is C04)",
 ]
 
 # ======================================================================================= helpers
@@ -706,7 +716,7 @@ REPS = ["f64", "list", "f32", "f16", "int64", "int32", "intlist", "readonly", "f
 @st.composite
 def warm_case(draw):
     case = draw(mesh_case(max_parts=2, max_faces=100))
-    case["warm"] = draw(st.lists(st.sampled_from(WARM_ATTRS), min_size=0, max_size=4, unique=True))
+    case["warm"] = draw(st.lists(st.sampled_from(WARM_ATTRS), min_size=draw(st.sampled_from([0, 1, 1, 2])), max_size=4, unique=True))
     case["pre_density"] = draw(st.booleans())
     case["pre_override"] = draw(st.sampled_from([False, False, True]))
     steps = []
@@ -714,7 +724,7 @@ def warm_case(draw):
         op = draw(st.sampled_from(["transform", "transform", "transform", "lattice", "scale", "translate"]))
         step = {"op": op}
         if op == "transform":
-            step["mat"] = draw(gmat.matrix())
+            step["mat"] = draw(gmat.matrix(classes=[c for c in gmat.ALL_CLASSES if c != "identity"]))
             step["rep"] = draw(st.sampled_from(REPS))
         elif op == "lattice":
             step["perm"] = list(draw(st.permutations([0, 1, 2])))
@@ -1008,20 +1018,24 @@ def b_args(case, ctx):
         nonplain = [(n, k) for n, k in sorted(case["kinds"].items()) if k not in plain]
         ctx.note(cls=[c for c in classes if not c.startswith("__")])
         culprit = None
-        if len(nonplain) >= 1:
-            for n, k in nonplain:
-                try:
-                    _run_args(case, {n: k})
-                except Violation as v1:
-                    if v1.sig == v.sig:
-                        culprit = f"{n}={k}"
-                        break
+        if nonplain:
+            # which way of writing an argument down is responsible: none (fails with plain float64 arrays too),
+            # a single one, or only the combination
+            try:
+                _run_args(case, {})
+            except Violation as v0:
+                if v0.sig == v.sig:
+                    culprit = "plain"
             if culprit is None:
-                try:
-                    _run_args(case, {})
-                    culprit = "combination:" + ",".join(f"{n}={k}" for n, k in nonplain)
-                except Violation as v0:
-                    culprit = "plain" if v0.sig == v.sig else "combination"
+                for n, k in nonplain:
+                    try:
+                        _run_args(case, {n: k})
+                    except Violation as v1:
+                        if v1.sig == v.sig:
+                            culprit = f"{n}={k}"
+                            break
+            if culprit is None:
+                culprit = "combination"
         raise Violation(v.sig + "|" + (culprit or "plain"), f"[representations {case['kinds']}, values quantized to {case['quant']}] " + v.msg)
     ctx.note(nontrivial="__nontrivial__" in classes, cls=[c for c in classes if not c.startswith("__")])
 
@@ -1129,4 +1143,22 @@ REQUIRED_CLASSES["C03"] = [
     "cond:well",
     "cond:volume_below_1000tol",
     "frame:rigid",
+    "warm:uniform_scale_on_warm_object",
+    "warm:mirror_on_warm_object",
+    "warm:op:apply_scale",
+    "warm:op:apply_translation",
+    "warm:op:similarity",
+    "warm:op:lattice",
+    "warm:pre_reads:0",
+    "args:triangles=f32",
+    "args:triangles=f16",
+    "args:triangles=list",
+    "args:vertices=f32",
+    "args:center_mass=f32",
+    "args:center_mass=list",
+    "args:crosses=list",
+    "args:frame=intlist",
+    "args:frame=int32",
+    "args:frame=f32",
+    "args:integer_frame_with_fractional_centre",
 ]
